@@ -267,8 +267,11 @@ func filterMethodCall(blockContext antlr.Tree) {
 }
 
 func buildRestApiWithParameters(ctx *parser.MethodDeclarationContext) {
-	parameterList := ctx.FormalParameters().GetChild(1).(*parser.FormalParameterListContext)
-	formalParameter := parameterList.AllFormalParameter()
+	// `m(V this)` has only a receiver parameter where the parameter list would be
+	var formalParameter []parser.IFormalParameterContext
+	if parameterList, ok := ctx.FormalParameters().GetChild(1).(*parser.FormalParameterListContext); ok {
+		formalParameter = parameterList.AllFormalParameter()
+	}
 	for _, param := range formalParameter {
 		paramContext := param.(*parser.FormalParameterContext)
 
@@ -277,8 +280,8 @@ func buildRestApiWithParameters(ctx *parser.MethodDeclarationContext) {
 		for _, modifier := range modifiers {
 			childType := reflect.TypeOf(modifier.GetChild(0))
 			if childType.String() == "*parser.AnnotationContext" {
-				qualifiedName := modifier.GetChild(0).(*parser.AnnotationContext).QualifiedName().GetText()
-				if qualifiedName == "RequestBody" {
+				annotation := modifier.GetChild(0).(*parser.AnnotationContext)
+				if annotation.QualifiedName() != nil && annotation.QualifiedName().GetText() == "RequestBody" {
 					hasRequestBody = true
 				}
 			}
